@@ -101,15 +101,24 @@ func genC20(seed uint64, tier string, idx int) (p *Plan) {
 			cmd := termCmds[g.r.intn(len(termCmds))]
 			var raw []byte
 			custom := g.r.chance(45)
+			var customBody []byte
 			if custom {
 				body := g.wellFormedBody(cmd, v19, bcd)
+				if g.r.chance(6) && (cmd == 0x0102 && !v19 || cmd == 0x0002) {
+					body = nil // an empty custom body where the type accepts one
+				}
+				customBody = body
 				// custom bodies stay well-formed: the property speaks of frames whose body parses with the
 				// matching message type; the reply to a body the type rejects is outside its domain
 				raw = t.CreateCommandData(consts.JT808CommandType(cmd), body)
 			} else {
 				raw = t.CreateDefaultCommandData(consts.JT808CommandType(cmd))
 			}
-			frames = append(frames, SentFrame{ID: cmd, Serial: uint16(i + 1), Raw: raw, Valid: true, Name: HexStr(phone), Default: !custom})
+			sf := SentFrame{ID: cmd, Serial: uint16(i + 1), Raw: raw, Valid: true, Name: HexStr(phone), Default: !custom}
+			if custom {
+				sf.Body = customBody
+			}
+			frames = append(frames, sf)
 			if g.r.chance(40) {
 				// a user predicts the reply right away, for whatever platform serial: must not disturb the
 				// simulator's own serial progression
@@ -212,6 +221,10 @@ func checkC20(r *Result) []Violation {
 			// a frame with the simulator's own default body: the body parses with the matching message type (a
 			// fresh value of it) and re-encodes to the identical bytes - whatever the Terminal value was used for
 			// before (custom bodies, ExpectedReply calls)
+			if !f.Default && !bytes.Equal(d.Body, f.Body) {
+				bad("custom_body_not_carried", fmt.Sprintf("frame %d (command %#04x, version %v, phone %s): CreateCommandData was given body %x, the frame carries %x", k, f.ID, ver, phone, []byte(f.Body), d.Body), 0)
+				return vs
+			}
 			if f.Default {
 				if why := defaultBodyRoundTrip(f.Raw, f.ID); why != "" {
 					bad("default_body_not_parseable", fmt.Sprintf("frame %d (command %#04x, version %v, phone %s) with the simulator's default body: %s: %x", k, f.ID, ver, phone, why, []byte(f.Raw)), 0)
